@@ -92,6 +92,15 @@ def pickResult? : List String → Option PickResult
   | ["scnd", k] => (nat? k).map (.subConn · false)
   | _ => none
 
+def startPick (st : St) (tid : Nat) (a : Act) (rpcFailfast : Bool) (to : Nat) : Option St :=
+  let s := st.sys
+  match s.thr tid with
+  | some _ => none
+  | none =>
+    let m : MT := { tid := tid, ff := rpcFailfast, deadline := if to = 0 then none else some (st.clock + to), cancelled := false,
+                    implSt := "", calls := 0, floor := s.sh.cur, lastGen := none, lastRet := none }
+    some { st with sys := (step s a).1, mts := insertMT m st.mts }
+
 /-- op → the model's external event(s); `none` = bad-op. Returns the new driver state (before settle). -/
 def applyOp (st : St) (fs : List String) : Option St :=
   let s := st.sys
@@ -107,14 +116,15 @@ def applyOp (st : St) (fs : List String) : Option St :=
     | _, _, _ => none
   | ["pick", tid, ff, to] =>
     match nat? tid, nat? ff, nat? to with
-    | some tid, some ff, some to =>
-      match s.thr tid with
-      | some _ => none
-      | none =>
-        let m : MT := { tid := tid, ff := ff ≠ 0, deadline := if to = 0 then none else some (st.clock + to), cancelled := false,
-                        implSt := "", calls := 0, floor := s.sh.cur, lastGen := none, lastRet := none }
-        some { st with sys := (step s (.start tid (ff ≠ 0))).1, mts := insertMT m st.mts }
+    | some tid, some ff, some to => startPick st tid (.start tid (ff ≠ 0)) (ff ≠ 0) to
     | _, _, _ => none
+  | ["attempt", tid, ff, nr, first, to] =>
+    -- the monitor judges the thread by the RPC's own fail-fast flag (ff = 0: wait-for-ready),
+    -- whatever the attempt number; the model starts it the way csAttempt.getTransport does
+    match nat? tid, nat? ff, nat? nr, nat? first, nat? to with
+    | some tid, some ff, some nr, some first, some to =>
+      startPick st tid (attemptStart tid { failFast := ff ≠ 0, numRetries := nr, firstAttempt := first ≠ 0 }) (ff ≠ 0) to
+    | _, _, _, _, _ => none
   | "ret" :: tid :: rest =>
     match nat? tid, pickResult? rest with
     | some tid, some r =>
